@@ -57,6 +57,12 @@ def modifyFirst {α ε : Type} (p : α → Bool) (f : α → Except ε α) (nf :
       | .ok ys => .ok (x :: ys)
       | .error e => .error e
 
+/-- pairwise distinct (dict keys, sibling names) -/
+def distinctNames (names : List String) : Bool :=
+  match names with
+  | [] => true
+  | n :: rest => !rest.contains n && distinctNames rest
+
 /-- Apply `f` to the `n`-th element (no change when out of range). -/
 def modifyNth {α : Type} (f : α → α) : Nat → List α → List α
   | _, [] => []
